@@ -71,6 +71,7 @@ GM = {
     "errfail": "~ id: errfail ~ $[*][@e = add(#1, 1)]",
     "stops": '~ id: stops ~ $[*][#0 == "k" -> stop()]',
     "norun": "~ id: norun run-mode: no-run ~ $[*][fail()]",
+    "failall": '~ id: failall ~ $[*][#0 == "k" -> fail_all()]',
 }
 GFILES = ["", "n", "k", "nk", "K", "nN", "b", "kn", "nKk", "bn", "N", "kK"]
 
@@ -214,6 +215,8 @@ def run_case(case):
     # the members' own verdicts against a standalone run (so that the conjunction is a conjunction of the right things)
     regfile = cp.file_manager.get_named_file("d")
     for g, r in zip(grp, results):
+        if "failall" in grp and g != "failall":
+            continue  # what fail_all() does to the OTHER members of the run is not part of the statement: only the executing csvpath is asserted
         text = GM[g]
         j = text.index("$")
         a = run.run_csvpath(text[:j] + "$" + regfile + text[j + 1 :], "fast_forward", policy=("collect", "fail"))
